@@ -344,8 +344,8 @@ func (m *Model) eachCases() *loopCaseResult {
 				return arrRes, true
 			case any(alt):
 				nAlt++
-				if !w.enclosedBy(args[2], envIn) && args[2] != any(envIn) && problem == "" {
-					problem = "the @else body is evaluated in a scope that does not see the enclosing variables"
+				if !w.enclosedBy(args[2], envIn) && problem == "" {
+					problem = "the @else body is not evaluated in a scope of the loop's own enclosed by the incoming one (what it assigns would leak out)"
 				}
 				return altRes, true
 			case any(blk):
@@ -596,6 +596,7 @@ func (m *Model) forCases() *loopCaseResult {
 			case any(alt):
 				nAlt++
 				events = append(events, "else")
+				checkScope("the @else body", args[2])
 				return altRes, true
 			case any(blk):
 				passes++
